@@ -4,6 +4,7 @@ package main
 
 import (
 	"go/token"
+	"strings"
 
 	"golang.org/x/tools/go/ssa"
 )
@@ -18,6 +19,7 @@ func init() {
 			c.run("C02-5", "GUARD-DOM: typed-line framing rejects wrong type / missing colon; COMP flag must be true or false", c02Framing)
 			c.run("C02-6", "GUARD-DOM: decode failures are errors (unknown escape code, leftover bytes, reader error cancels)", c02Decode)
 			c.run("C02-7", "GUARD-DOM: EOF before the announced length is an error", c02ShortSource)
+			c.run("C02-9", "GUARD-DOM: after a resume the receiver cross-checks the sender's remaining size against its own truncation offset", c02Resume)
 			c.run("C02-8", "MUST-PASS: no error result of the transfer layer is dropped; every nil-test's non-nil edge fails", c02ErrorDiscipline)
 		})
 }
@@ -725,5 +727,96 @@ func c02ErrorDiscipline(c *Ctx) {
 	}
 	if nCalls < 80 {
 		c.undecided("error-discipline/sites", "fewer tracked call sites than expected")
+	}
+}
+
+// c02Resume: after a resume both ends must agree on the offset. The only message that carries the
+// sender's view is the SIZE of the remainder, so the receiver must compare it with what it kept
+// (source size minus its own truncation offset). A lost/altered hash ack otherwise makes the sender resume
+// from a different offset than the receiver truncated at, and the MD5 (over the re-sent bytes only) still matches.
+func c02Resume(c *Ctx) {
+	rp := c.fn("trzszTransfer.recvPrefixHash")
+	// the receiver records (total - offset) where offset is the value it truncated at
+	var fld string
+	truncs := callsIn(rp, idIs("(*os.File).Truncate"))
+	if len(truncs) != 1 {
+		c.lost("Truncate in recvPrefixHash")
+	}
+	m := truncs[0].Common().Args[1]
+	eachInstr(rp, func(in ssa.Instruction) {
+		st, ok := in.(*ssa.Store)
+		if !ok {
+			return
+		}
+		b, ok := strip(st.Val).(*ssa.BinOp)
+		if !ok || b.Op != token.SUB || !sameValue(b.Y, m) {
+			return
+		}
+		if n, ok := fieldAddrName(st.Addr); ok && strings.HasPrefix(n, "trzszTransfer.") {
+			fld = n
+			// total: received SIZE (v3) or the decoded source size (v4)
+			good := true
+			for _, l := range origins(b.X, originOpts{}) {
+				call, idx := callOf(l.V)
+				isSize := call != nil && idx == 0 && calleeID(&call.Call) == tT+"recvInteger"
+				if !isSize && !isFieldLoad("Size")(l.V) {
+					good = false
+				}
+			}
+			c.check(good && domI(truncs[0].(ssa.Instruction), st), "recvPrefixHash/records-remaining", c.ipos(st), "the receiver records source size minus the offset it truncated at", "the recorded remainder is not (source size - truncation offset)")
+		}
+	})
+	if fld == "" {
+		c.bad("recvPrefixHash/records-remaining", c.pos(rp.Pos()), "after a resume the receiver does not record how many bytes it still expects: nothing cross-checks the sender's resume offset against the receiver's (a lost hash ack ends in a silently wrong file)")
+		return
+	}
+	short := fld[strings.Index(fld, ".")+1:]
+	rs := c.fn("trzszTransfer.recvFileSize")
+	sz := callsWithConstArg(rs, tT+"recvInteger", 1, "SIZE")
+	if len(sz) != 1 {
+		c.lost("recvInteger(\"SIZE\") in recvFileSize")
+	}
+	size := extractOf(sz[0], 0)
+	n := 0
+	eachInstr(rs, func(in ssa.Instruction) {
+		isEcho := false
+		if call, ok := in.(*ssa.Call); ok && calleeID(&call.Call) == tT+"sendInteger" {
+			isEcho = true
+		}
+		if !isEcho && !isNilErrReturn(in) {
+			return
+		}
+		n++
+		// either no resume happened (recorded value < 0) or the announced size equals it
+		fs := factsAt(in.Block())
+		eq := factCmp(fs, token.EQL, isValue(size), anyValue)
+		none := factCmp(fs, token.LSS, isFieldLoad(short), isConstIntV(0))
+		if !eq && !none {
+			// the join after `if remain >= 0 { if size != remain { return err } }`: accept when the mismatch edge fails
+			okGate := false
+			for _, b := range rs.Blocks {
+				i := blockIf(b)
+				if i == nil {
+					continue
+				}
+				op, x, y, ok := cmpFact(normFact(fact{V: i.Cond, Pol: true}))
+				if ok && (op == token.NEQ || op == token.EQL) && (sameValue(x, size) || sameValue(y, size)) && b.Dominates(in.Block()) == false {
+					k := 0
+					if op == token.EQL {
+						k = 1
+					}
+					fe, _ := failEdge(c, b, k)
+					onResume := factCmp(factsAt(b), token.GEQ, anyValue, isConstIntV(0))
+					if fe && onResume && precedes(i, in) {
+						okGate = true
+					}
+				}
+			}
+			eq = okGate
+		}
+		c.check(eq || none, "recvFileSize/resume-size-check", c.ipos(in), "the size announced after a resume is accepted only if it equals what the receiver still expects", "the size announced after a resume is accepted without comparing it with the receiver's own offset")
+	})
+	if n < 2 {
+		c.undecided("recvFileSize/exits", "expected the SUCC echo and the success return")
 	}
 }
